@@ -203,7 +203,7 @@ def ctype_name(t, typemap):
     t = re.sub(r'^(std|detail|dispenso)::', '', t)
     if t in typemap:
         return typemap[t]
-    if re.fullmatch(r'(u?int(8|16|32|64)_t|s?size_t|bool|ptrdiff_t|uintptr_t|char|int|unsigned|long|IntegerT|size_type|U|WideT)( ?\*)?', t):
+    if re.fullmatch(r'(u?int(8|16|32|64)_t|s?size_t|bool|ptrdiff_t|uintptr_t|char|int|unsigned|long|IntegerT|size_type|U|WideT|Wide)( ?\*)?', t):
         return t
     raise ExtractionError("cast to unknown type %r (add it to the unit's typemap)" % t)
 
@@ -222,7 +222,21 @@ def apply_rules(piece, typemap=None, subs=(), must_fire=(), drop=(), keep_this=F
     # per-unit substitutions first (they see the original text)
     for sub in subs:
         rule, pat, rep = sub[0], sub[1], sub[2]
-        t, n = re.subn(pat, rep, t)
+        if isinstance(pat, tuple) and pat[0] == 'block':
+            # pattern followed by a balanced {...} block: the whole statement is replaced
+            n = 0
+            while True:
+                m = re.search(pat[1], t)
+                if not m:
+                    break
+                b = t.find('{', m.end() - 1) if t[m.end() - 1] != '{' else m.end() - 1
+                e = match_balanced(t, b, '{', '}')
+                t = t[:m.start()] + rep + t[e:]
+                n += 1
+                if n > 50:
+                    raise ExtractionError("block substitution does not terminate")
+        else:
+            t, n = re.subn(pat, rep, t)
         want = sub[3] if len(sub) > 3 else None
         if n == 0 or (want is not None and n != want):
             raise ExtractionError("%s:%d: substitution %s %r fired %d times (expected %s)" % (
@@ -247,7 +261,7 @@ def apply_rules(piece, typemap=None, subs=(), must_fire=(), drop=(), keep_this=F
                 break
             t = t2
     # R2b functional casts  T{e} / T(e) for known arithmetic type names
-    tn = r'(?<![\w.>])(u?int(?:8|16|32|64)_t|s?size_t|IntegerT|size_type|ssize_t|U|WideT)'
+    tn = r'(?<![\w.>])(u?int(?:8|16|32|64)_t|s?size_t|IntegerT|size_type|ssize_t|U|WideT|Wide)'
     def fcast(m, args):
         return '((%s)(%s))' % (ctype_name(m.group(1), typemap), args)
     while True:
@@ -262,8 +276,12 @@ def apply_rules(piece, typemap=None, subs=(), must_fire=(), drop=(), keep_this=F
         if len(a) != 2:
             raise ExtractionError("std::%s with %d args" % (m.group(1), len(a)))
         return '%s_%s(%s, %s)' % (m.group(1).upper(), ctype_name(m.group(2), typemap), a[0], a[1])
-    t, n = _rewrite_call_like(t, r'std::(min|max)\s*<\s*([\w: ]+?)\s*>\s*(?=\()', mm)
-    note('R3', n)
+    while True:
+        t2, n = _rewrite_call_like(t, r'std::(min|max)\s*<\s*([\w: ]+?)\s*>\s*(?=\()', mm)
+        note('R3', n)
+        if n == 0:
+            break
+        t = t2
     # R5 hints / keywords without run-time meaning
     for pat in (r'\bDISPENSO_INLINE\b', r'\bconstexpr\b', r'\bnoexcept\b', r'\binline\b',
                 r'\bDISPENSO_NO_THREAD_SAFETY_ANALYSIS\b', r'\bDISPENSO_TSAN_\w+\([^;]*\);', r'\btypename\b'):
